@@ -49,11 +49,13 @@ def build_world(lang):
     G2 = cls('G2', [g1, TP('R', INV, None)])
     co = TP('X', OUT, None)
     M = cls('M', [co, TP('Z', INV, Number)])
+    c1 = TP('T1', INV, None)
+    Con3 = cls('Con3', [c1, TP('Y', INV, Cv.get_type().new([c1])), TP('T2', INV, c1)])   # bound of Y mentions T1, T2 : T1
     zw = TP('W', INV, None)
     zx = TP('X', INV, Cv.get_type().new([zw]))
     Z3 = cls('Z3', [zw, zx, TP('Y', INV, Cv.get_type().new([zx]))])     # chain of parameterized bounds
     world = {'factory': f, 'decls': decls, 'roles': {'Any': Any, 'Number': Number, 'Integer': Integer, 'String': String},
-             'generic': ['A', 'B', 'Cv', 'Kc', 'E', 'F', 'H', 'G2', 'M', 'Z3']}
+             'generic': ['A', 'B', 'Cv', 'Kc', 'E', 'F', 'H', 'G2', 'M', 'Z3', 'Con3']}
     base = [Number, Integer, String, P, Q]
     pools = {
         'builtins+simple': base,
@@ -238,6 +240,24 @@ def judge_leaf(world, d, pre, vc_in, switches, result, for_function):
                 if not dep:
                     out.append(('pre-assignment-dropped', '%s requested %s, got %s' % (
                         p.name, _show_arg(want), _show_arg(a))))
+        # projections inside a nested instantiation the helper built itself
+        if inner_t is not None and not (p in pre):
+            nested = _nested_projections(inner_t)
+            usv, contra = switches
+            if nested:
+                if vc_in is None:
+                    out.append(('nested-projection-without-variance-choices', '%s := %s' % (p.name, rsub.show(inner_t))))
+                if usv:
+                    out.append(('nested-projection-with-use-site-variance-disabled', '%s := %s' % (p.name, rsub.show(inner_t))))
+                if contra and 'in' in nested:
+                    out.append(('nested-in-projection-with-contravariance-disabled', '%s := %s' % (p.name, rsub.show(inner_t))))
+        # a dependent parameter (T2 : T1) cannot inherit T1's projection where its bound would no
+        # longer be derivable / expressible
+        if a[0] in ('out', 'in') and p.bound is not None and p.bound.is_type_var() and not (p in pre):
+            if for_function:
+                out.append(('projection-assigned-to-function-type-parameter', '%s := %s' % (p.name, _show_arg(a))))
+            elif a[0] == 'in' and any(q.name == p.bound.name and qa == a for q, qa in zip(ps, targs)):
+                out.append(('dependent-parameter-inherits-contravariant-projection', '%s := %s' % (p.name, _show_arg(a))))
         # projection permissions (only for projections the helper itself introduced)
         if a[0] in ('out', 'in'):
             requested = p in pre and cv.arg(pre[p])[0] == a[0]
@@ -269,6 +289,17 @@ def judge_leaf(world, d, pre, vc_in, switches, result, for_function):
                 if mentioned:
                     out.append(('projection-on-parameter-mentioned-in-a-bound', '%s := %s in %s' % (
                         p.name, _show_arg(a), d.name)))
+    return out
+
+
+def _nested_projections(t):
+    out = set()
+    if t is not None and t[0] == 'c':
+        for a in t[2]:
+            if a[0] != 't':
+                out.add(a[0])
+            if a[0] != '*':
+                out |= _nested_projections(a[1])
     return out
 
 
@@ -351,7 +382,7 @@ def run(tier, seed, jobs):
     res = Result(PROP, tier, seed, level='model_checking')
     cap = 4000 if tier == 'quick' else 40000
     langs = ('kotlin', 'java') if tier == 'quick' else ('kotlin', 'java', 'groovy', 'scala')
-    names = ['A', 'B', 'Cv', 'Kc', 'E', 'F', 'H', 'G2', 'M', 'Z3']
+    names = ['A', 'B', 'Cv', 'Kc', 'E', 'F', 'H', 'G2', 'M', 'Z3', 'Con3']
     tasks = [(lang, [n], cap) for lang in langs for n in names]
     tasks = common.rotate(tasks, seed)
     found, stats = {}, {}
